@@ -52,11 +52,15 @@ class ProtocolType(Protocol):
 @cache
 def get_protocol(protocol_version: str) -> ProtocolType:
     """Return the protocol module for the protocol_version."""
+    version = AwesomeVersion(protocol_version)
+    if version.major is not None and version.minor is not None:
+        # The protocol is selected on major.minor: release 2.2.0 uses protocol 2.2.
+        version = AwesomeVersion(f"{version.major}.{version.minor}")
     module = next(
         (
             PROTOCOL_VERSIONS[_protocol_version]
             for _protocol_version in sorted(PROTOCOL_VERSIONS, reverse=True)
-            if AwesomeVersion(protocol_version) >= AwesomeVersion(_protocol_version)
+            if version >= AwesomeVersion(_protocol_version)
         ),
         protocol_14,
     )
